@@ -73,12 +73,16 @@ class Watchdog(BaseException):
     the check timing dependent."""
 
 
-WATCHDOG_S = [20.0]    # first hit in a process: 20 s; afterwards 0.5 s per case
+WATCHDOG_S = [20.0]    # first hit in a process: 20 s; afterwards 0.15 s per case (never reached on the unchanged tree)
+
+
+_IN_CASE = [False]     # the repeating alarm only raises while a case is being executed
 
 
 def _on_alarm(signum, frame):
-    WATCHDOG_S[0] = 0.5
-    raise Watchdog()
+    WATCHDOG_S[0] = 0.15
+    if _IN_CASE[0]:
+        raise Watchdog()
 
 
 def _patch_daemon_task():
@@ -265,6 +269,7 @@ class _Run:
                 res['spun'] = True
             return res
         finally:
+            _IN_CASE[0] = False
             _CUR[0] = None
             sim.close()
 
@@ -273,15 +278,19 @@ def run_impl(case):
     use_alarm = threading.current_thread() is threading.main_thread()
     if use_alarm:
         old = signal.signal(signal.SIGALRM, _on_alarm)
-        signal.setitimer(signal.ITIMER_REAL, WATCHDOG_S[0])
+        # repeating: a Watchdog raised inside a callback whose exceptions are swallowed (weakref
+        # callbacks, __del__) must fire again until it lands in ordinary code
+        signal.setitimer(signal.ITIMER_REAL, WATCHDOG_S[0], 0.25)
     try:
+        _IN_CASE[0] = True
         return _Run(case).go()
     except Watchdog:
-        WATCHDOG_S[0] = 0.5
+        WATCHDOG_S[0] = 0.15
         o = error_obs(case, None)
         o['spun'] = True
         return o
     finally:
+        _IN_CASE[0] = False
         if use_alarm:
             signal.setitimer(signal.ITIMER_REAL, 0)
             signal.signal(signal.SIGALRM, old)
